@@ -294,8 +294,21 @@ func (f *Frame) checkFrame(e Exit, anchor string) {
 			vc.oblige("frame", fmt.Sprintf("%s#frame:%s@%s", name, k, anchor), e.Cond, fmt.Sprintf("(= %s %s)", now, init), f.pos(e.Pos), "global "+k+" unchanged (not in modifies)")
 			continue
 		}
+		if containsStr(mods[k], "ALL") {
+			continue
+		}
+		if containsStr(mods[k], "POOL") {
+			// a set of the pool subsystem: existing objects keep their membership
+			goal := fmt.Sprintf("(forall ((r Int)) (=> (and (<= 0 r) (< r %s)) (= (select %s r) (select %s r))))", f.entry.alloc, now, init)
+			vc.oblige("frame", fmt.Sprintf("%s#frame:%s@%s", name, k, anchor), e.Cond, goal, f.pos(e.Pos), "the pool subsystem gains only freshly allocated members ("+k+")")
+			continue
+		}
 		var excl []string
 		for _, m := range mods[k] {
+			if m == "POOLED" {
+				excl = append(excl, not(vc.poolArrayAt(f.entry, "r")))
+				continue
+			}
 			excl = append(excl, fmt.Sprintf("(not (= r %s))", m))
 		}
 		guard := and(append([]string{"(<= 0 r)", fmt.Sprintf("(< r %s)", f.entry.alloc)}, excl...)...)
